@@ -27,11 +27,19 @@ def main():
         print("patch does not apply: " + a.stderr)
         return 2
     start = time.time()
+    # the committed evidence describes the unchanged tree: keep it, store the seeded run's evidence with the seed
+    ev = "/verif/evidence/%s.json" % prop
+    backup = open(ev).read() if os.path.exists(ev) else None
     try:
         env = dict(os.environ, VERIF_NOLOCK="1")
         p = subprocess.run(["./check", prop, "--tier", tier] + extra, cwd="/verif", env=env, capture_output=True, text=True)
     finally:
         subprocess.run(["git", "-C", "/repo", "checkout", "--", "."], check=True)
+        if os.path.exists(ev):
+            os.replace(ev, os.path.join(d, "evidence_with_seed.json"))
+        if backup is not None:
+            with open(ev, "w") as f:
+                f.write(backup)
     out = p.stdout + p.stderr
     viol = re.findall(r"^VIOLATION .*$", out, re.M)
     failed = re.findall(r"^  (\w+) FAILED: (.*)$", out, re.M)
